@@ -179,6 +179,9 @@ def plan(tier, seed):
     for cmd in ('ci', 'st', 'commit'):
         for nd in (0, 1, 2):
             tasks.append(('alias_resolve', {'cmd': cmd, 'defs': nd}))
+    for depth in (1, 2, 3, 4, 5):
+        for end in ('commit -v', 'log', 'k1', '!echo x', 'status'):
+            tasks.append(('alias_resolve', {'cmd': 'k1', 'chain': depth, 'end': end}))
     # group the many tiny argv shapes into batches to amortise task overhead
     argv = [t for t in tasks if t[0] == 'argv']
     rest = [t for t in tasks if t[0] != 'argv']
@@ -538,7 +541,7 @@ def git_alias_reference(P, argv, table):
 def ob_alias_resolve(h, shape):
     P = h.P
     M = P.M
-    nd = shape['defs']
+    nd = shape.get('defs', 0)
     table = {}
     picks = []
     for i in range(nd):
@@ -546,6 +549,13 @@ def ob_alias_resolve(h, shape):
         vi = h.choice(len(ALIAS_VALUES))
         table[ALIAS_NAMES[ni]] = ALIAS_VALUES[vi]
         picks.append([ALIAS_NAMES[ni], ALIAS_VALUES[vi]])
+    if shape.get('chain'):
+        # a loop-free (or looping) chain of `chain` hops: k1 -> k2 -> ... -> end
+        d = shape['chain']
+        for i in range(1, d + 1):
+            val = ('k%d' % (i + 1)) + (' -q' if i == 2 else '') if i < d else shape['end']
+            table['k%d' % i] = val
+            picks.append(['k%d' % i, val])
     P.state['aliases'] = table
     cmd = shape['cmd']
     ug = USER_GLOBALS[h.choice(len(USER_GLOBALS))]
@@ -568,6 +578,15 @@ def ob_alias_resolve(h, shape):
     # what git finally does when handed `passed` must be what it does for the user's argv
     final = git_alias_reference(P, passed, table) if passed else ('fatal',)
     h.require(final == ref, 'A3-same-expansion', 'git would end up with %r for the user but %r through git-ai' % (ref, final), known)
+    # the command git-ai settles on (it selects the hooks) is the command git's own expansion ends with
+    if ref[0] == 'run':
+        if r.var == 'None':
+            hook_cmd = cmd                      # handle_git keeps the unexpanded invocation
+        else:
+            cf = field(M, r.f[0], 'git::cli_parser::ParsedGitInvocation', 'command')
+            hook_cmd = bytes(concrete_bytes(as_bytes(cf.f[0]))).decode() if cf.var == 'Some' else None
+        h.require(hook_cmd == ref[2][0], 'A3-hooks-follow-gits-expansion',
+                  'git runs `%s` for this invocation, git-ai selects its hooks for `%s`' % (ref[2][0], hook_cmd), known)
     h.sample = {'aliases': picks, 'argv': argv, 'passed': passed}
 
 
@@ -626,7 +645,7 @@ def replay(v, native):
             return {'reproduced': v['kind'] == 'panic', 'native': r}
         return _confirm_alias(val, r.get('tokens'))
     if ob.startswith('A3'):
-        return _confirm_alias_resolve(inp, native)
+        return _confirm_alias_resolve(inp, native, ob)
     return {'reproduced': False}
 
 
@@ -693,7 +712,7 @@ def _py_split(val):
     return [t.decode('utf-8', 'replace') for t in toks]
 
 
-def _confirm_alias_resolve(inp, native):
+def _confirm_alias_resolve(inp, native, obligation='A3-same-expansion'):
     """real git with the alias table: which command + args does it end up running,
     for the user's argv and for the argv git-ai passes"""
     r = native('c18_alias_resolve', inp)
@@ -715,6 +734,14 @@ def _confirm_alias_resolve(inp, native):
             return rc, ran[-1:] if ran else errt[-200:]
         a = run(inp['argv'])
         b = run(passed)
+        if obligation == 'A3-hooks-follow-gits-expansion':
+            # which built-in did the real git end up running for the user's argv?
+            ran = None
+            for l in (a[1] if isinstance(a[1], list) else []):
+                if l.startswith('built-in: git '):
+                    rest = l[len('built-in: git '):].split()
+                    ran = rest[0] if rest else None
+            return {'reproduced': ran is not None and r.get('hook_command') != ran, 'git_ran': ran, 'hook_command': r.get('hook_command'), 'passed': passed}
         return {'reproduced': a != b, 'user': a, 'through_git_ai': b, 'passed': passed}
     finally:
         subprocess.call(['rm', '-rf', tmp])
